@@ -336,7 +336,8 @@ UNI_WS = ["\x85", "\xa0", "\u2003", "\u2028", "\u3000"]
 UNI_DIG = ["\u0663", "\u0967", "\uff15", "\U0001d7d8"]
 UNI_OTHER = ["\xe9", "\xdf", "\u6f22", "\u0301", "\ud800", "\udfff", "\xb2", "\xbd", "\U0001f600", "\x7f", "\x80"]
 ASCII_WS = ["\t", "\n", "\x0b", "\x0c", "\r", " ", "\x1c", "\x1d", "\x1e", "\x1f"]
-EDIT_ALPHABET = list("@@::,,[]./u%_+- 0159afgzPYROpyroNAMEMETA") + ["\n", "\t", "\x1c", "\r"]
+EDIT_ALPHABET = list("@@::,,[]./u%_+- 0159afgzPYROpyroNAMEMETA") + ["\n", "\t", "\x1c", "\r"] + \
+    list("%%%{}\\$sd(")      # characters special to %-formatting / str.format / templates
 
 
 def in_model_domain(s):
@@ -366,8 +367,10 @@ def _gen_protocol(rng):
 
 
 NAME_ATOMS = ["obj", "o", "Pyro.NameServer", "Pyro.Daemon", "obj_7f3a", "a.b-c", "x/y", "$%&", "~!*'()", "a,b", "0",
-              "@", "a@", "@a", "a@b", "@@", "a@@", "[x]", "./u:", ":", "\xe9", "\u6f22"]
-TAG_ATOMS = ["", "", "a", "b", "tag1", "x.y", "A", "class:device", "a@", "@b", "a@b", "@", "0", ".", "\xe9", "z"]
+              "@", "a@", "@a", "a@b", "@@", "a@@", "[x]", "./u:", ":", "\xe9", "\u6f22",
+              "%", "%%", "%s", "%d", "obj%d", "100%", "%(x)s", "{}", "{0}", "a\\b", "$", "${x}"]
+TAG_ATOMS = ["", "", "a", "b", "tag1", "x.y", "A", "class:device", "a@", "@b", "a@b", "@", "0", ".", "\xe9", "z",
+             "%", "%%", "%s", "%d", "{}", "{0}", "\\", "$", "t%20x"]
 
 
 def _gen_object(rng, proto):
@@ -413,10 +416,13 @@ def gen_port_text(rng):
 
 
 HOSTS = ["localhost", "h", "example.com", "127.0.0.1", "10.0.0.1", "0.0.0.0", "a b", " h", "h ", "", "", "./u", "./u", "./u ",
-         ".", "./", "./U", "h[", "@", "h@g", "x]", "\xe9.com", "host-1", "h\r", "h\x1c", "abc", "fe80"]
+         ".", "./", "./U", "h[", "@", "h@g", "x]", "\xe9.com", "host-1", "h\r", "h\x1c", "abc", "fe80",
+         "h%41", "h%", "%s", "%d", "h%%", "h{}", "{0}", "a\\b", "$h", "h%(p)s"]
 V6HOSTS = ["::1", "::1", "2001:db8::ff00:42:8329", "fe80::1%25", "fe80::1%eth0", "abc", "1", "::", "%", ":", "", "g::1",
-           "::1 ", "[::1]", "AB:cd", "::ffff:10.0.0.1", "0:0"]
-SOCKS = ["sock", "/tmp/pyro.sock", "a b", "", "x:y", ":", "s@t", "\xe9", "sock\t", "9090", "./u:x", "[x]"]
+           "::1 ", "[::1]", "AB:cd", "::ffff:10.0.0.1", "0:0",
+           "fe80::1%2", "fe80::1%2", "fe80::1%%", "fe80::1%d", "::1%5", "%%", "fe80::1%{}"]
+SOCKS = ["sock", "/tmp/pyro.sock", "a b", "", "x:y", ":", "s@t", "\xe9", "sock\t", "9090", "./u:x", "[x]",
+         "/tmp/app%d.sock", "a%%b", "%s", "100%", "%", "{0}", "{}.sock", "a\\b", "$x", "%(n)s"]
 
 
 def _gen_location(rng):
@@ -549,13 +555,19 @@ def real_line(URI, errors, s, perm_rng):
             perm_rng.shuffle(perm)
         order = [tags[i] for i in perm] if perm else tags
         o = "m:" + ";".join(cps(t) for t in tags)
-        text = str_in_order(URI, u, order)
     else:
         o = "s:" + cps(obj)
-        text = str(u)
-    loc = u.location
+        order = None
+    try:
+        loc = _txt(u.location)
+    except Exception as x:            # the text form must be computable: shown in the line, flagged by the oracle
+        loc = "exc " + type(x).__name__
+    try:
+        text = cps(str_in_order(URI, u, order))
+    except Exception as x:
+        text = "exc " + type(x).__name__
     line = "ok proto=%s obj=%s sock=%s host=%s port=%s loc=%s str=%s" % (
-        cps(proto), o, _txt(sock), _txt(host), "N" if port is None else str(port), _txt(loc), cps(text))
+        cps(proto), o, _txt(sock), _txt(host), "N" if port is None else str(port), loc, text)
     return line, u, perm
 
 
@@ -609,7 +621,16 @@ def check_reparse(ctx, URI, errors, s, u, rng, case):
     bad = 0
     for order in _orders(u, rng):
         ctx.evaluations += 1
-        text = str_in_order(URI, u, order)
+        try:
+            text = str_in_order(URI, u, order)
+        except Exception as x:
+            # an accepted URI has no text form at all ("yields a URI whose text form is accepted again")
+            c = dict(case)
+            c["order"] = order
+            ctx.fail("str-raises", "URI(%r) = %r is accepted but str(uri) raises %s: %s"
+                     % (s, u.__getstate__(), type(x).__name__, x), c)
+            bad += 1
+            break
         what = None
         try:
             v = URI(text)
@@ -799,10 +820,13 @@ def _minimise(URI, errors, s, sig):
             u = URI(t)
         except Exception:
             return False
-        if failure_class(u) != sig:
+        if failure_class(u) != sig and sig != "str-raises":
             return False
         for order in ([None] if not isinstance(u.object, set) else [None, sorted(u.object), sorted(u.object)[::-1]]):
-            text = str_in_order(URI, u, order)
+            try:
+                text = str_in_order(URI, u, order)
+            except Exception:
+                return True
             try:
                 if URI(text) != u:
                     return True
@@ -866,7 +890,7 @@ def _run(ctx, name, n, do_model, transport_every):
                 ctx.count("accept:%s/%s" % (st[0], lk))
                 ctx.nontriv(json.dumps([canon_state(u), c["nsport"], perm], ensure_ascii=True))
                 if len(ctx.samples) < 6 and idx % 7 == 3:
-                    ctx.sample({"input": s, "state": canon_state(u), "text": str(u)})
+                    ctx.sample({"input": s, "state": canon_state(u), "text": line.rsplit(" str=", 1)[-1]})
             if do_model and domain:
                 lines.append("p %d %s %s" % (c["nsport"], cps(s), ",".join(map(str, perm)) if perm else "-"))
                 reals.append(line)
@@ -880,7 +904,10 @@ def _run(ctx, name, n, do_model, transport_every):
                     if transport_every and (idx % transport_every == 0 or "corpus" in c):
                         check_transport(ctx, URI, errors, s, u, c, ns)
                 elif transport_every and "corpus" in c:
-                    check_transport(ctx, URI, errors, s, u, c, ns)
+                    try:
+                        check_transport(ctx, URI, errors, s, u, c, ns)
+                    except Exception:          # the text form already failed above (reported there)
+                        pass
                 for f in ctx.failures[nbefore:]:
                     if f["signature"] not in seen_fail:
                         seen_fail.add(f["signature"])
@@ -1037,7 +1064,12 @@ def replay(ctx, case):
                 continue
             orders = [c["order"]] if c.get("order") else _orders(u, random.Random(0))
             for order in orders:
-                text = str_in_order(URI, u, order)
+                try:
+                    text = str_in_order(URI, u, order)
+                except Exception as x:
+                    print("URI(%r) = %r ; str(uri) raises %s: %s" % (s, u.__getstate__(), type(x).__name__, x))
+                    bad = 1
+                    break
                 try:
                     v = URI(text)
                     res = "parses to %r (%s)" % (v.__getstate__(), "equal" if v == u else "NOT equal")
